@@ -30,7 +30,7 @@ def run(ctx):
     for it in range(N):
         k = rng.randint(1, 4)
         n = rng.randint(k + 1, 15)
-        if it % 50 == 17:
+        if it % 50 == 17 or it % 100 == 37:
             n = rng.choice([17, 33, 65, rng.randint(18, 70)])      # scale-up slice: masks longer than 8/16/32/64 series
             ctx.count("large_collections")
         nd = rng.choice([0, 0, 0, 2])
@@ -69,6 +69,10 @@ def run(ctx):
         max_it = rng.choice([1, 2, 5, 10, 0])     # 0: no iteration at all, the clusters of the initial centres
         stop_at = rng.choice([None, None, None, 1, 2])     # monitor_distances returning False is the documented way to stop
         parallel = (not ctx.quick) and rng.random() < 0.05
+        if it % 100 == 37:
+            # scale-up slice: the multiprocessing route with more series than one chunk / one worker's share
+            parallel = True
+            ctx.count("parallel_fits_on_large_collections")
         as_matrix = equal and rng.random() < 0.4
         layout = rng.choice(["C", "C", "strided", "F"])
         if as_matrix:
